@@ -92,6 +92,10 @@ def make_model(gen):
     nsols = [rnd.randint(1, nsol) for _ in codes]
     nsols[rnd.randrange(nst)] = nsol
     stasol = [(c, s + 1) for c, k in zip(codes, nsols) for s in range(k)]
+    if gen.get('order') == 'by-solution':
+        # the later solution segments of a station do not follow its first one directly (all first segments, then all
+        # second ones ...): the format does not ask for adjacency
+        stasol.sort(key=lambda cs: cs[1])
     types = [('STAX', 'm', 6.0e6), ('STAY', 'm', 6.0e6), ('STAZ', 'm', 6.0e6)]
     if vel:
         types += [('VELX', 'm/y', 0.1), ('VELY', 'm/y', 0.1), ('VELZ', 'm/y', 0.1)]
